@@ -9,6 +9,7 @@ prefix_rules = [
  ("maven_dependency_resolver/src/coord.rs", 245, 295, "equivalent", "artifact-handler table columns (language, added to classpath, includes dependencies) that nothing reads"),
  ("quill/src/enigma_file.rs", 82, 82, "equivalent", "line number in an error text"),
  ("dukenest/src/io.rs", 18, 18, "equivalent", "line number in an error text"),
+ ("duke/src/tree/version.rs", 1, 80, "outside", "named version constants (V1_8, V17, ...): nothing on the paths of the listed properties reads them, versions travel as numbers"),
 ]
 out = ["# Mutation sweep: results and triage of survivors", "", "Produced by tools/mutation_sweep.py (quick tier of the owning checks, seed 1); survivors triaged by hand in triage.json.", ""]
 untri = []
@@ -26,6 +27,11 @@ for f in sorted(glob.glob('/verif/mutants/sweep/*.jsonl')):
             if not t:
                 for p, lo, hi, cl, note in prefix_rules:
                     if r['file'] == p and lo <= r['line'] <= hi: t = [cl, note]
+            if not t:
+                if r['before'].startswith('f.write_str(') or r['before'].startswith('d.finish()'):
+                    t = ["outside", "Debug output"]
+                elif r['before'] in ('has_synthetic_attribute: false,', 'has_deprecated_attribute: false,'):
+                    t = ["equivalent", "default of a constructor that the reader / builder overwrites"]
             if not t:
                 untri.append(key + " | " + r['before'][:100] + " => " + r['after'][:100]); t = ["UNTRIAGED", ""]
             out.append(f"* `{r['file']}:{r['line']}` {r['op']}: `{r['before'][:90]}` → `{r['after'][:90]}` — **{t[0]}**: {t[1]}")
